@@ -316,7 +316,7 @@ pub fn exec(w: &mut World, op: &Op, fam: &str, rest: &str, env: &mut Env) {
                 let v = match form % 3 {
                     0 => if single { RBig::try_from(s).ok() } else { RBig::try_from(d).ok() },
                     1 => if single { RBig::simplest_from_f32(s) } else { RBig::simplest_from_f64(d) },
-                    _ => RBig::try_from(d).ok().map(|v| v.relax().canonicalize()),
+                    _ => (if single { RBig::try_from(s) } else { RBig::try_from(d) }).ok().map(|v| v.relax().canonicalize()),
                 };
                 match v {
                     Some(v) => {
